@@ -187,3 +187,105 @@ def schedules_on_real_code(U, chunk):
 
 
 schedules_on_real_code.enumerate_inputs = lambda tier, chunk: _enum(tier, chunk)
+
+
+# ---- a constructor in another process succeeds only if the database is not write-locked for long: the session methods that run a
+# parser / an analysis (seconds to minutes on real apps) must not hold a write transaction across those calls.  Callees are replaced by
+# contract stubs that probe, from a second connection, whether the database file is writable at the moment they are called.
+
+
+def _writable(path):
+    import sqlite3
+    c = sqlite3.connect(path, timeout=0)
+    try:
+        c.execute("BEGIN IMMEDIATE")
+        c.execute("ROLLBACK")
+        return True
+    except sqlite3.OperationalError:
+        return False
+    finally:
+        c.close()
+
+
+@unit("C36", covers=[(SES, "Session.addAPK"), (SES, "Session.addDEX"), (SES, "Session.addODEX"), (SES, "Session.__init__")], level="bounded",
+      params=[{"what": w} for w in ("apk", "dex", "odex")],
+      note="real Session on a real sqlite file; APK / DEX / Analysis replaced by stubs that probe the database lock from a second "
+           "connection whenever the session calls them, and again after the method returns; then a second Session is constructed")
+def no_write_lock_while_analysing(U, what):
+    ses = U.mod(SES)
+    U.drawn.update({"what": what})
+    root = tempfile.mkdtemp(prefix="c36l_", dir=os.environ.get("VERIF_SCRATCH") or None)
+    path = os.path.join(root, "s.db")
+    probes = []
+
+    def probe(where):
+        probes.append((where, _writable(path)))
+
+    class _Dex:
+        def __init__(self, data, *a, **k):
+            probe("DEX parser")
+
+        def get_classes(self):
+            return []
+
+        def get_format_type(self):
+            return "DEX"
+
+    class _Apk:
+        def __init__(self, data, *a, **k):
+            probe("APK parser")
+
+        def get_all_dex(self):
+            probe("between DEX files")
+            yield b"dex-one"
+            probe("between DEX files")
+            yield b"dex-two"
+
+    class _Ana:
+        def __init__(self, *a):
+            self.vms = []
+
+        def add(self, d):
+            probe("Analysis.add")
+
+        def create_xref(self):
+            probe("Analysis.create_xref")
+
+        def get_classes(self):
+            return []
+
+    class _Mod:
+        def __init__(self, real, **over):
+            self._real, self._over = real, over
+
+        def __getattr__(self, n):
+            return self._over[n] if n in self._over else getattr(self._real, n)
+
+    saved = (ses.dex, ses.apk, ses.Analysis, ses.DecompilerDAD)
+    ses.dex = _Mod(saved[0], DEX=_Dex, ODEX=_Dex)
+    ses.apk = _Mod(saved[1], APK=_Apk)
+    ses.Analysis = _Ana
+    ses.DecompilerDAD = lambda *a, **k: None
+    try:
+        s = ses.Session(False, "sqlite:///" + path)
+        if what == "apk":
+            o = U.call(s.addAPK, "a.apk", b"apk-bytes")
+        elif what == "dex":
+            o = U.call(s.addDEX, "c.dex", b"dex-bytes")
+        else:
+            o = U.call(s.addODEX, "c.odex", b"dey-bytes")
+        U.ensures("the session method does not raise", o.ok, exc=repr(o.exc)[:200])
+        probe("after return")
+        U.ensures("parsers and analysis were invoked", len(probes) >= 3, probes=probes)
+        locked = [w for w, ok in probes if not ok]
+        U.ensures("the database is not write-locked while the parser / analysis runs, nor after the method returns "
+                  "(another process can create its session)", not locked, locked_at=locked)
+        o2 = U.call(ses.Session, False, "sqlite:///" + path)
+        U.ensures("a second session on the same database is created successfully with another identifier",
+                  o2.ok and o2.value.session_id != s.session_id, exc=repr(o2.exc)[:200])
+    finally:
+        ses.dex, ses.apk, ses.Analysis, ses.DecompilerDAD = saved
+        shutil.rmtree(root, ignore_errors=True)
+
+
+no_write_lock_while_analysing.enumerate_inputs = lambda tier, **p: iter([{}])
